@@ -10,9 +10,9 @@ CFG = dict(
     harness_timeout=5400,
     trusted=COMMON_TRUSTED + ["compiled Go programs (go build, one module with sub-packages) as reference for the initialisation order",
                               "hand-written model Init/Model.v of interp/cfg.go genGlobalVarDecl/getVarDependencies, program.go Execute and src.go importSrc, tied by behavioural correspondence: the initialisation log of every generated program under real yaegi (Eval and EvalPath) must equal the model's prediction, inside and outside the defect regions"],
-    level_text="Coq theorems (unbounded: all declaration lists, all dependency graphs, all acyclic import graphs) about executable models of yaegi's ordering of package-level variables and packages (Y) and of the Go specification (G): agreement under decidable side conditions, refutation witnesses elsewhere, unconditional soundness facts about yaegi's pass algorithm and its memoised package loader; Y is tied to the source on every run by comparing the initialisation log of seeded random programs under real yaegi with Y evaluated inside Coq; G is validated against the same programs compiled by the Go toolchain.",
+    level_text="Coq theorems (unbounded: all declaration lists, all dependency graphs, all acyclic import graphs) about executable models of yaegi's ordering of package-level variables and packages (Y) and of the Go specification (G): agreement under decidable side conditions, refutation witnesses elsewhere, full-strength correctness of yaegi's (repaired) scheduling loop on every dependency graph, unconditional soundness facts about it and about the memoised package loader; Y is tied to the source on every run by comparing the initialisation log of seeded random programs under real yaegi with Y evaluated inside Coq; G is validated against the same programs compiled by the Go toolchain.",
     level_note="Trusted: Coq kernel + vm_compute, no axioms; harness; Go toolchain as the reference. No translator: the mechanism is a loop, not a table; it is modelled by hand and tied by correspondence (600 programs per quick run, 20000 per thorough run, the first 13 of every run being the theorem witnesses).",
-    technique="Coq proof by induction over declaration lists, passes and fuel + model/implementation correspondence evaluated in Coq",
+    technique="Coq proof by induction over declaration lists, scans and fuel + model/implementation correspondence evaluated in Coq",
     assumptions=["identifiers are unique within a package (yaegi and Go both reject redeclarations)",
                  "constants, cross-package variable references and interface method calls carry no initialisation dependency in either model; the generator does not produce constants",
                  "function bodies that read a variable declared by 'var x, y = f()' are kept out of the generated programs: yaegi panics in the host on such a read (unrelated to ordering)"],
